@@ -502,15 +502,17 @@ func TestVerifC20_crypto(t *testing.T) {
 	ab, abc := []string{"a", "b"}, []string{"a", "b", "c"}
 	var spaces []c20CryptoSpace
 	if r.Thorough() {
-		half := func(gi int, g *c20Group) bool { return g.nLeaves < 3 || gi%2 == 0 }
-		quarter := func(gi int, g *c20Group) bool { return g.nLeaves < 3 || gi%4 == 1 }
+		third := func(gi int, g *c20Group) bool { return gi%3 == 0 }
+		quarter := func(gi int, g *c20Group) bool { return gi%4 == 1 }
+		v12 := []string{"1", "2"}
 		spaces = []c20CryptoSpace{
-			{"ab", c20Kinds3, ab, c20Values, []int{1, 2, 3}, 1, half, quarter},
-			{"abc", c20Kinds4, abc, c20Values, []int{1, 2}, 2, all, all},
+			{"ab", c20Kinds3, ab, c20Values, []int{1, 2}, 2, all, all},
+			{"abc", c20Kinds4, abc, v12, []int{1, 2}, 2, all, all},
+			{"ab3", c20Kinds3, ab, v12, []int{3}, 1, third, quarter},
 		}
-		r.Set("space", "ab: leaves<=3 over {a:1,a:2,b:1}, <=1 negation per node, 16 assignments {a,b}->{absent,1,2,3}; abc: leaves<=2 over {a:1,a:2,b:1,c:1}, <=2 stacked negations per node, 64 assignments; "+
-			"legacy format on every structure of <=2 leaves and every 2nd of 3 leaves, round-tripped keys on every structure of <=2 leaves and every 4th of 3 leaves")
-		r.NotExhaustive("legacy format / round-tripped keys on a declared half / quarter of the 3-leaf structures")
+		r.Set("space", "ab: leaves<=2 over {a:1,a:2,b:1}, <=2 stacked negations per node, 16 assignments {a,b}->{absent,1,2,3}; abc: leaves<=2 over {a:1,a:2,b:1,c:1}, 27 assignments {a,b,c}->{absent,1,2}; "+
+			"ab3: 3 leaves over {a:1,a:2,b:1}, <=1 negation per node, 9 assignments; legacy format and round-tripped keys on every structure of ab and abc, on every 3rd / 4th structure of ab3")
+		r.NotExhaustive("legacy format / round-tripped keys on a declared third / quarter of the 3-leaf structures")
 	} else {
 		some := func(gi int, g *c20Group) bool { return g.nLeaves == 1 || gi%6 == 0 }
 		some2 := func(gi int, g *c20Group) bool { return g.nLeaves == 1 || gi%6 == 1 }
